@@ -25,10 +25,23 @@ def main(argv):
     if replay:
         with open(replay) as f:
             data = json.load(f)
+        if 'crash' in data:
+            # an unexpected exception of textX during the check: re-run the check itself
+            os.environ['VERIF_OUT_SUFFIX'] = '_replay'
+            import subprocess
+            r = subprocess.run([sys.executable, '-m', 'verifx.run', prop], capture_output=True, text=True)
+            print(('REPRODUCED: ' if r.returncode == 1 else 'not reproduced: ') + (r.stdout.strip().splitlines() or [''])[-1][:200])
+            return 1 if r.returncode == 1 else 0
         bad, detail = big_frame(mod.replay, data)
         print(('REPRODUCED: ' if bad else 'not reproduced: ') + str(detail))
         return 1 if bad else 0
-    return big_frame(mod.main)
+    try:
+        return big_frame(mod.main)
+    except Exception as e:  # noqa  (an uncaught exception of the harness itself is not a verdict)
+        import traceback
+        print('HARNESS ERROR (not a verdict): %s: %s' % (type(e).__name__, e))
+        traceback.print_exc()
+        return 3
 
 
 if __name__ == '__main__':
